@@ -46,16 +46,31 @@ func main() {
 		os.Exit(2)
 	}
 	seed, _ := strconv.ParseInt(os.Getenv("VERIF_SEED"), 10, 64)
-	r := ev.NewRun(*prop, *tier, d.Level, seed)
-	c := &props.Ctx{R: r, Tier: *tier, Start: time.Now()}
+	var doc *ev.ReplayDoc
 	if *replay != "" {
-		doc, err := ev.LoadReplay(*replay)
+		var err error
+		doc, err = ev.LoadReplay(*replay)
 		if err != nil {
 			fmt.Println("cannot load replay:", err)
 			os.Exit(2)
 		}
+		if doc.Tier == "quick" || doc.Tier == "thorough" {
+			*tier = doc.Tier // case indices refer to the bounds of the tier that found the case
+		}
+	}
+	r := ev.NewRun(*prop, *tier, d.Level, seed)
+	c := &props.Ctx{R: r, Tier: *tier, Start: time.Now()}
+	if doc != nil {
 		c.Replay = doc
 		r.ReplayMode = true
+	}
+	// A thorough run first covers the quick bounds completely: whatever its own, larger products
+	// manage within their deadlines, the thorough tier is then never weaker than the quick one.
+	// (C12 is exempt: its thorough tier runs the same drivers with larger budgets and bounds.)
+	if *tier == "thorough" && doc == nil && *prop != "C12" && os.Getenv("VERIF_NO_QUICK_PHASE") == "" {
+		r.Phase = "quick"
+		d.Run(&props.Ctx{R: r, Tier: "quick", Start: time.Now()})
+		r.Phase = ""
 	}
 	d.Run(c)
 	os.Exit(r.Finish())
